@@ -89,12 +89,39 @@ def chunks(l, n):
     return [l[i:i + n] for i in range(0, len(l), n)]
 
 
-def eval_scripts(tag, imports, fn, progs, per_file):
+def est_output(stmts):
+    """Upper estimate of the bytes one script's result occupies in coqc's output."""
+    n = 60
+    for st in stmts:
+        if st[0] in ('inline', 'block'):
+            n += 40 + st[2] * st[3] * 9
+        else:
+            n += 40
+    return n
+
+
+def pack(progs, limit=30000):
+    """Shard so that one coqc process prints well under the 64 KB a pipe holds
+    (common.run_cases reads the output only after the process has ended)."""
+    parts, cur, size = [], [], 0
+    for p in progs:
+        e = est_output(p)
+        if cur and (size + e > limit or len(cur) >= 200):
+            parts.append(cur)
+            cur, size = [], 0
+        cur.append(p)
+        size += e
+    if cur:
+        parts.append(cur)
+    return parts
+
+
+def eval_scripts(tag, imports, fn, progs):
     """Evaluate `fn prog` in Coq for every script (one Eval per script: long list literals
     overflow Coq's stack), sharded; one result string per script."""
-    parts = chunks(progs, per_file)
+    parts = pack(progs)
     files = [''.join('Eval vm_compute in (%s %s).\n' % (fn, coq_prog(p)) for p in part) for part in parts]
-    res = common.run_cases(tag, imports, files)
+    res = common.run_cases(tag, imports, files, timeout=300)
     out = []
     for (ok, strs, log), part in zip(res, parts):
         if not ok or len(strs) != len(part):
@@ -1104,10 +1131,10 @@ def classify(desc, real, spec_ids, expected, tx):
 def check_batch(ctx, descs, model_ok, stats):
     """Run every script, evaluate spec and model in Coq, compare."""
     progs = [d['stmts'] for d in descs]
-    spec_out = eval_scripts('c15spec', 'From Bardolph Require Import Lang.MatrixSpec Run.C15Spec.', 'spec_script1', progs, 250)
+    spec_out = eval_scripts('c15spec', 'From Bardolph Require Import Lang.MatrixSpec Run.C15Spec.', 'spec_script1', progs)
     model_out = None
     if model_ok:
-        model_out = eval_scripts('c15mod', 'From Bardolph Require Import Lang.MatrixSpec Run.C15Model.', 'model_script', progs, 250)
+        model_out = eval_scripts('c15mod', 'From Bardolph Require Import Lang.MatrixSpec Run.C15Model.', 'model_script', progs)
     found = {}
     for i, d in enumerate(descs):
         ctx.count()
